@@ -179,7 +179,11 @@ def _apply(it, c, fn, args, kwargs, node):
     site = f'{it.where()}#call[{fn.__qualname__}@L{getattr(node, "lineno", 0)}]'
     it.called_contracts.add(c.name)
     pre = c.pre(cx, **p)
-    run.oblige(f'{site}.pre', pre)
+    if isinstance(pre, dict):
+        for lab, t in pre.items():
+            run.oblige(f'{site}.pre:{lab}', t)
+    else:
+        run.oblige(f'{site}.pre', pre)
     options = [('normal', c.normal_when(cx, **p))]
     for ecls, cond in c.raises.items():
         options.append((ecls, cond(cx, **p)))
